@@ -238,7 +238,15 @@ func (g *gen) genStatement(typ types.Type, this, that string) error {
 			p.Out()
 			p.P("}")
 		}
-		if err := g.genField(elmType, thisvalue, wrap(that)+"["+thatkey+"]"); err != nil {
+		if _, isArray := elmType.Underlying().(*types.Array); isArray && !canCopy(elmType) {
+			// the elements of an array that sits in a map are not addressable: fill a copy of the array and store that
+			thatvalue := prepend(that, "value")
+			p.P("var %s %s", thatvalue, g.TypeString(elmType))
+			if err := g.genField(elmType, thisvalue, thatvalue); err != nil {
+				return err
+			}
+			p.P("%s = %s", wrap(that)+"["+thatkey+"]", thatvalue)
+		} else if err := g.genField(elmType, thisvalue, wrap(that)+"["+thatkey+"]"); err != nil {
 			return err
 		}
 		p.Out()
